@@ -650,21 +650,21 @@ def check_twogrid(spec, ctx):
 # =============================================================================================
 
 SUBCHECKS = [
-    Sub("gauss_seidel", check_gs, strategy=lambda tier: strat_gs(), quick=4000, thorough=30000, isolate=True, floor=200,
+    Sub("gauss_seidel", check_gs, strategy=lambda tier: strat_gs(), quick=4000, thorough=100000, isolate=True, floor=200,
         rule="solvers.gauss_seidel (dense loop / relaxation_cy) vs coordinate-wise text-book update with a running rounding "
              "bound; x* exactly fixed; SPD: energy error never increases; non-trivial: CSC/COO/unsorted CSR or index list "
              "not increasing"),
-    Sub("mg_cycle", check_mg_cycle, strategy=lambda tier: strat_mg(), quick=240, thorough=1500, isolate=True, floor=30,
+    Sub("mg_cycle", check_mg_cycle, strategy=lambda tier: strat_mg(), quick=240, thorough=4000, isolate=True, floor=30,
         timeout_q=600,
         rule="indices_to_smooth / dirichlet dofs vs reference model; local_mg_step: fixed point, equals dense text-book "
              "V-cycle, energy error non-increasing, for 4 strategies x 5 smoothers per space; non-trivial: >= 3 levels or THB "
              "or finite disparity"),
-    Sub("hmultigrid_driver", check_hmultigrid, strategy=lambda tier: strat_mg(driver=True), quick=240, thorough=1500,
+    Sub("hmultigrid_driver", check_hmultigrid, strategy=lambda tier: strat_mg(driver=True), quick=240, thorough=4000,
         isolate=True, floor=30, timeout_q=600,
         rule="solve_hmultigrid stopping rule and returned iterate vs replay of the documented cycle"),
-    Sub("iterative_solve", check_iterative_solve, strategy=lambda tier: strat_itsolve(), quick=800, thorough=5000, floor=50,
+    Sub("iterative_solve", check_iterative_solve, strategy=lambda tier: strat_itsolve(), quick=800, thorough=15000, floor=50,
         rule="iterative_solve with text-book step functions: count = first step meeting the reduction, inf = limit"),
-    Sub("twogrid", check_twogrid, strategy=lambda tier: strat_twogrid(), quick=320, thorough=2000, isolate=True, floor=30,
+    Sub("twogrid", check_twogrid, strategy=lambda tier: strat_twogrid(), quick=320, thorough=5000, isolate=True, floor=30,
         timeout_q=600,
         rule="twogrid with nested B-spline prolongation (exact Boehm matrices), SPD K + cM, starting vectors None/list/"
              "int list/array/int array; smoother objects vs text-book; convergence bounds"),
